@@ -29,6 +29,10 @@ type KnownFinding struct {
 
 type Baseline struct {
 	Discharged map[string][]string `json:"discharged"` // property -> obligation ids expected to discharge
+	// property -> obligation ids that EXISTED when the baseline was written but were not discharged (normally none): only these are
+	// "unclaimed" when they stay undecided. An undecided obligation listed in neither map did not exist on the baseline tree - it
+	// was created by the change under examination (a new call site, return point or touched frame) and counts as a violation
+	Undecided map[string][]string `json:"undecided_at_baseline,omitempty"`
 }
 
 type PropRun struct {
@@ -274,6 +278,15 @@ func cmdCheck(args []string) int {
 	known := loadKnown()
 	bl := loadBaseline()
 	inBaseline := map[string]bool{}
+	if bl.Undecided != nil {
+		if und, ok := bl.Undecided[prop]; ok {
+			// everything not explicitly recorded as undecided-at-baseline is claimed
+			undecidedAtBaseline = map[string]bool{}
+			for _, id := range und {
+				undecidedAtBaseline[id] = true
+			}
+		}
+	}
 	for _, id := range bl.Discharged[prop] {
 		inBaseline[id] = true
 	}
@@ -318,7 +331,7 @@ func cmdCheck(args []string) int {
 				continue
 			}
 			if retrySpent > budget {
-				if inBaseline[o.ID] || len(bl.Discharged[prop]) == 0 {
+				if inBaseline[o.ID] || len(bl.Discharged[prop]) == 0 || newSinceBaseline(o.ID) {
 					claimed++
 					failures = append(failures, &Failure{O: o, Kind: "undecided"})
 				} else {
@@ -341,7 +354,7 @@ func cmdCheck(args []string) int {
 				claimed++
 				failures = append(failures, &Failure{O: o, Kind: "sat"})
 			default:
-				if inBaseline[o.ID] || len(bl.Discharged[prop]) == 0 || matchesKnown(known, prop, o.ID) != nil {
+				if inBaseline[o.ID] || len(bl.Discharged[prop]) == 0 || newSinceBaseline(o.ID) || matchesKnown(known, prop, o.ID) != nil {
 					claimed++
 					failures = append(failures, &Failure{O: o, Kind: "undecided"})
 				} else {
@@ -478,6 +491,17 @@ func cmdCheck(args []string) int {
 		}
 		sort.Strings(ids)
 		bl.Discharged[prop] = ids
+		und := []string{}
+		for _, o := range pr.obls {
+			if o.Expect == "unsat" && o.Res.Verdict != "unsat" {
+				und = append(und, o.ID)
+			}
+		}
+		sort.Strings(und)
+		if bl.Undecided == nil {
+			bl.Undecided = map[string][]string{}
+		}
+		bl.Undecided[prop] = und
 		b, _ := json.MarshalIndent(bl, "", " ")
 		os.WriteFile(filepath.Join(verifDir, "baseline_obligations.json"), b, 0o644)
 	}
@@ -524,6 +548,13 @@ func matchesKnown(ks []KnownFinding, prop, id string) *KnownFinding {
 }
 
 var failedSoFar int64
+
+// undecidedAtBaseline: nil when the baseline predates the record (then only discharged ids are claimed, as before)
+var undecidedAtBaseline map[string]bool
+
+func newSinceBaseline(id string) bool {
+	return undecidedAtBaseline != nil && !undecidedAtBaseline[id]
+}
 
 func solveAllPrepared(obls []*Obligation, timeoutS int, all bool) {
 	atomic.StoreInt64(&failedSoFar, 0)
